@@ -26,7 +26,7 @@ CONF_L = {"preset": "commonmark", "options": {"maxNesting": 100}}
 def floors(tier):
     q = tier == "quick"
     return {"law.quote": 40000 if q else 1000000, "law.item": 40000 if q else 1000000, "depth.4plus": 2000, "marker_width.5plus": 1000,
-            "D.lazy": 500, "D.definitions": 1000, "D.html_block": 500, "D.blank_in_verbatim": 300, "hr_exclusions": 5}
+            "D.lazy": 500, "D.definitions": 1000, "D.html_block": 500, "D.blank_in_verbatim": 300, "hr_exclusions": 5, "D.battery": 5000}
 
 
 def quote(D):
@@ -213,8 +213,21 @@ def run(ctx):
     n = ctx.scale(50000, 1500000)
     corp = [t for _, t in gen.corpus() if len(t) < 500]
 
+    # containers whose last line holds an unfinished construct, DIRECTLY followed (no blank line) by a context-sensitive line
+    bases = ["> [foo]:", "> [foo]: /u", "> a", "> ```", "> - x", "> # h", ">     code", "> > > a", "> > b", "- a", "- [r]:", "1. x", "> <div>", "> |a|b|\n> |-|-|",
+             "> t\n> ===", "- > q", "> 1. o", "- - n", ">", "-", "> [r]: /u\n> 'ti", "```\nf", "<div>", "|a|b|\n|-|-|", "para", "# h"]
+    adjs = ["***", "---", "-", "<div>", "- b", ">     - b", ">  c", "    code", "'title'", "\"t\" rest", "===", "2. y", "> d", "lazy", "  lazy2", "# h", "```", "|c|d|",
+            "[x]: /y", "1) z", ">     code", ">> e", "      six", "+", "* * *", "/dest", "<u v>", "(paren) x", "-|-"]
+    battery = [b + "\n" + a + "\n" for b in bases for a in adjs]
+
     def gen_D():
         r = rng.random()
+        if r < 0.2:
+            d = rng.choice(battery)
+            if rng.random() < 0.3:
+                d += rng.choice(adjs) + "\n"
+            ctx.count("D.battery")
+            return d
         if r < 0.45:
             return clean(gen.gram(rng, nblocks=rng.randint(1, 4)))
         if r < 0.75:
